@@ -30,7 +30,8 @@ def check_size_verifiers(idx: Index, rep: Report) -> None:
         raise AnalysisError(f"{f.fq}: attribute-size branch not found")
     g = idx.func(OPS, "verify_variadic_attr_size")
     t = unparse(g.node)
-    sizes = next((unparse(s.targets[0]) for s in walk_local(g.node) if isinstance(s, ast.Assign) and unparse(s.value) == "attribute.get_values()"), None)
+    sizes = next((unparse(s.targets[0]) for s in walk_local(g.node) if isinstance(s, ast.Assign) and re.fullmatch(r"\w+\.get_values\(\)", unparse(s.value))), None)
+    defs_n = next((unparse(s.targets[0]) for s in walk_local(g.node) if isinstance(s, ast.Assign) and isinstance(s.value, ast.Call) and unparse(s.value.func) == "get_construct_defs"), "defs")
     if sizes is None:
         raise AnalysisError(f"{g.fq}: `sizes = attribute.get_values()` not found")
     cfg = CFG(g.node)
@@ -54,7 +55,7 @@ def check_size_verifiers(idx: Index, rep: Report) -> None:
     sz = dn = None
     for w in loops:
         args = [unparse(a_) for a_ in w.iter.args]
-        if sizes in args and "defs" in args and isinstance(w.target, ast.Tuple) and len(w.target.elts) == 2:
+        if sizes in args and defs_n in args and isinstance(w.target, ast.Tuple) and len(w.target.elts) == 2:
             si = args.index(sizes)
             se, de = w.target.elts[si], w.target.elts[1 - si]
             if isinstance(se, ast.Name) and isinstance(de, ast.Tuple) and len(de.elts) == 2:
@@ -353,14 +354,22 @@ def check_properties(idx: Index, rep: Report) -> None:
 def check_accessor_counters(idx: Index, rep: Report) -> None:
     r = rep.rule("C10.R5", "same-size accessors: the counter of variadic segments seen so far is incremented for every variadic (optional included) definition", floor=1)
     f = idx.func(OPS, "irdl_op_arg_definition")
-    incs = [s for s in walk_local(f.node) if isinstance(s, ast.AugAssign) and unparse(s.target) == "variadics_encountered"]
+    # the counter: the local handed to SameVariadicAccessor as `variadics_encountered` (last argument)
+    sva = [c for c in calls_in(f.node) if call_attr(c) == "SameVariadicAccessor" and c.args]
+    if not sva or not isinstance(sva[0].args[-1], ast.Name):
+        raise AnalysisError(f"{f.fq}: construction of SameVariadicAccessor with the running counter not found")
+    cnt = sva[0].args[-1].id
+    incs = [s for s in walk_local(f.node) if isinstance(s, ast.AugAssign) and unparse(s.target) == cnt]
     if len(incs) != 1:
-        raise AnalysisError(f"{f.fq}: `variadics_encountered += 1` not found")
-    facts = sorted((unparse(t), p) for t, p in guard_facts(f.node, incs[0]) if "arg_def" in unparse(t))
-    if facts == [("isinstance(arg_def, VariadicDef)", True)]:
+        raise AnalysisError(f"{f.fq}: `{cnt} += 1` not found")
+    # the definition the loop is looking at: the loop target the accessor's name / kind tests refer to
+    lp_ = [w for w in walk_local(f.node) if isinstance(w, ast.For) and any(x is incs[0] for x in ast.walk(w))]
+    defv = unparse(lp_[-1].target.elts[1].elts[1]) if lp_ and isinstance(lp_[-1].target, ast.Tuple) and len(lp_[-1].target.elts) == 2 and isinstance(lp_[-1].target.elts[1], ast.Tuple) and len(lp_[-1].target.elts[1].elts) == 2 else "arg_def"
+    facts = sorted((unparse(t), p) for t, p in guard_facts(f.node, incs[0]) if defv in {x.id for x in ast.walk(t) if isinstance(x, ast.Name)})
+    if facts == [(f"isinstance({defv}, VariadicDef)", True)]:
         r.ok(f.fq, f"{f.loc} counter incremented iff isinstance(arg_def, VariadicDef)")
     else:
-        r.fail(f.fq, Finding("C10.R5", f.fq, "variadic-counter", f"`variadics_encountered += 1` runs under {facts}; optional segments (a VariadicDef subclass) must be counted too, otherwise accessors after an optional segment start at the wrong offset", f"{OPS}:{incs[0].lineno}"))
+        r.fail(f.fq, Finding("C10.R5", f.fq, "variadic-counter", f"`{cnt} += 1` runs under {facts}; optional segments (a VariadicDef subclass) must be counted too, otherwise accessors after an optional segment start at the wrong offset", f"{OPS}:{incs[0].lineno}"))
     # accessor arithmetic: both accessor kinds compute  start = idx + encountered * diff,  diff = (len(args) - num_defs) // num_variadics;
     # the variadic one returns args[start : start + 1 + diff].  Compared as polynomials over the path-resolved expression.
     from ..paths import enum_paths
